@@ -165,6 +165,30 @@ func runC09(c *core.Ctx) {
 			}
 		}
 	}
+	// a sentence built by hand (not through the parser) from words that are NOT in the list - the NFC spelling of Japanese
+	// words, upper case, padded - is invalid: MnemonicToSeed must refuse it
+	for _, lang := range []string{"japanese", "english"} {
+		bip39.SetWordList(lang)
+		for _, st := range sents {
+			if st.lang != lang || len(st.words) != 12 {
+				continue
+			}
+			for pos := 0; pos < 12; pos++ {
+				for _, f := range []func(string) string{rb39.ComposeKana, strings.ToUpper, func(w string) string { return w + " " }, func(w string) string { return w + "\u3099" }} {
+					m := append(bip39.Mnemonic{}, st.words...)
+					m[pos] = f(m[pos])
+					if m[pos] == st.words[pos] {
+						continue
+					}
+					seed, err := bip39.MnemonicToSeed(m, "")
+					c.Eval(1)
+					if err == nil || seed != nil {
+						c.Violate("C09/seed/word-not-in-list", fmt.Sprintf("MnemonicToSeed accepted a %s sentence whose word %d is %+q, which is not a word of the list", lang, pos, m[pos]), fmt.Sprintf("%+q", m), "", nil)
+					}
+				}
+			}
+		}
+	}
 	// MnemonicToSeed must refuse every invalid sentence: every position x all 2048 words on valid sentences of 12, 36 and
 	// 48 words (long sentences carry more than 11 checksum bits, part of them in the second-to-last word)
 	bip39.SetWordList("english")
